@@ -86,6 +86,7 @@ func main() {
 	}
 	part("pure", "Pure.lean", 1, func() string { return genPure(funcs) })
 	part("facts", "Facts.lean", 2, func() string { return genFacts(funcs, names) })
+	part("sql", "Sql.lean", 4, func() string { return genSql(funcs, names) })
 	if code != 0 {
 		os.Exit(2 + code)
 	}
